@@ -300,9 +300,55 @@ ATOMIC = re.compile(r"^Atomic[A-Z][A-Za-z0-9]*$")
 INTERIOR = re.compile(r"Cell|Atomic|Mutex|RwLock|Once|Lazy|Condvar")
 
 
+def type_aliases(src):
+    """name -> tokens it stands for, from the live items of this file (added after the mutation campaign, M29: a static
+    of type `Slot` with `use core::sync::atomic::AtomicU64 as Slot;` was classed as a plain immutable static):
+      use a::b::X as NAME;   use a::{X as NAME, ..};      NAME -> [X]
+      type NAME<..> = T;                                   NAME -> tokens of T"""
+    t, n, al = src.toks, len(src.toks), {}
+    i = 0
+    while i < n:
+        k, x, _ = t[i]
+        if src.live[i] and k == "id" and x == "use" and (i == 0 or t[i - 1][1] not in ("$", "::", ".")):
+            j = i + 1
+            while j < n and t[j][1] != ";":
+                if t[j][0] == "id" and t[j][1] == "as" and t[j - 1][0] == "id" and j + 1 < n and t[j + 1][0] == "id":
+                    al.setdefault(t[j + 1][1], []).extend([t[j - 1]])
+                j += 1
+            i = j
+        elif src.live[i] and k == "id" and x == "type" and i + 1 < n and t[i + 1][0] == "id" and (i == 0 or t[i - 1][1] not in ("$", "::", ".")):
+            j = i + 2
+            while j < n and t[j][1] not in ("=", ";"):
+                j = src.match[j] + 1 if (t[j][1] in _OPEN and j in src.match) else j + 1
+            e = j
+            while e < n and t[e][1] != ";":
+                e = src.match[e] + 1 if (t[e][1] in _OPEN and e in src.match) else e + 1
+            if j < n and t[j][1] == "=":
+                al.setdefault(t[i + 1][1], []).extend(t[j + 1:e])
+            i = e
+        i += 1
+    return al
+
+
+def expand_aliases(ty, aliases, depth=2):
+    """the tokens of a type plus what the aliases of the same file used in it stand for (the aliases of an alias too: `depth` levels)"""
+    out, frontier = list(ty), list(ty)
+    for _ in range(depth):
+        nxt = []
+        for y in frontier:
+            if y[0] == "id" and y[1] in aliases:
+                nxt += aliases[y[1]]
+        if not nxt:
+            break
+        out += nxt
+        frontier = nxt
+    return out
+
+
 def constructs(src):
     """global / shared state constructs in the live tokens of a Source: dicts with tok = token index"""
     t, n, out = src.toks, len(src.toks), []
+    aliases = type_aliases(src)
     in_use = [False] * n
     i = 0
     while i < n:
@@ -337,10 +383,14 @@ def constructs(src):
                 a = b = j + 2
                 while b < n and t[b][1] not in ("=", ";"):
                     b = src.match[b] + 1 if (t[b][1] in _OPEN and b in src.match) else b + 1
-                ty = t[a:min(b, n)]
+                written = t[a:min(b, n)]
+                # aliases of this file (`use .. X as A;`, `type A = ..;`) are replaced by what they stand for before the
+                # type is classified; a custom struct / enum type stays what it was (its fields are scanned where it is defined)
+                ty = expand_aliases(written, aliases)
                 interior = any(INTERIOR.search(y[1]) for y in ty if y[0] == "id") or \
                     any(ty[q][1] == "*" and ty[q + 1][1] == "mut" for q in range(len(ty) - 1))
-                add(i, "static", name=t[j][1], interior=interior)
+                via = sorted({y[1] for y in written if y[0] == "id" and y[1] in aliases}) if len(ty) > len(written) else []
+                add(i, "static", name=t[j][1], interior=interior, **({"type_aliases_resolved": via} if via else {}))
         elif x == "thread_local":
             add(i, "thread_local")
         elif x == "lazy_static" and nxt == "!":
@@ -736,6 +786,9 @@ def run(ctx):
             by_line[w] = {"kind": "unmodelled-shared-state", "where": w, "construct": f["construct"], "text": f["text"]}
             if f.get("why"):
                 by_line[w]["why"] = f["why"]
+            if f.get("type_aliases_resolved"):
+                by_line[w]["why"] = "the static's type is written with the alias(es) %s of the same file, which stand for a type with interior mutability" % (
+                    ", ".join(f["type_aliases_resolved"]))
             for c in cells:
                 if not c["ok"] and c["file"] == f["file"] and (f.get("tok") == c["at"] or c["span"][0] <= f.get("tok", -1) < c["span"][1]):
                     by_line[w]["why"] = "a lazy_static! cell that is not of the modelled shape: " + c["why"]
